@@ -186,6 +186,14 @@ def _implied(fn, cond, truth, term_bb, out, depth=0):
     if depth > 4:
         return
     i = fn.resolve(cond)
+    # `const bool ready = a() && b <= c;  if (ready)`: continue with the value the single-assignment local was given
+    j = fn.resolve(strip_casts(fn, cond))
+    if j is not None and j.op == "load":
+        o2 = resolve_local(fn, {"k": "inst", "id": j.id})
+        k = fn.resolve(o2)
+        if k is not None and k.id != j.id and k.op in ("phi", "icmp", "call", "xor"):
+            _implied(fn, o2, truth, term_bb, out, depth + 1)
+            return
     if i is not None and i.op == "phi" and i["ty"] == "i1":
         want = 1 if truth else 0
         alive = []
